@@ -1093,6 +1093,23 @@ func runC20(w *World, r *Report) {
 		}
 	}
 	r.Check(okr, "C20.chain-sticky", "Chain.reportError keeps the first error", rep.Pos(), "c.err written only when nil", "a later error overwrites the first one")
+	// … and nobody else writes it: an Append* that assigns c.err itself (`if c.err = f(); c.err != nil`) erases the first
+	// error whenever f succeeds
+	{
+		nw := 0
+		for _, fn := range w.RepoFuncs("compose") {
+			for _, fw := range fieldWrites(fn) {
+				if !sameField(fw.field, fErr) {
+					continue
+				}
+				nw++
+				r.Check(topFunc(fn) == rep, "C20.chain-sticky", "Chain.err written in "+w.fname(fn), fw.in.Pos(), "only reportError writes the chain's sticky error", "the chain's error field is assigned outside reportError: a successful step after a failed one resets it to nil (the failed stage is silently missing and Compile succeeds), or a later error replaces the first")
+			}
+		}
+		if nw == 0 {
+			undecidedf("C20.chain-sticky: no write of Chain.err found")
+		}
+	}
 	// compile: the sticky chain error is looked at before anything else — also before the "END already added" shortcut,
 	// which a failed earlier Compile leaves set
 	{
